@@ -6,7 +6,7 @@ passes on the changed tree) are reported and left in pending/."""
 import json, os, shutil, subprocess, sys
 from concurrent.futures import ThreadPoolExecutor
 V = '/verif'
-ids = sys.argv[1:] or sorted(os.listdir(V + '/pending'))
+ids = sys.argv[1:] or sorted(d for d in os.listdir(V + '/pending') if os.path.isdir(V + '/pending/' + d))
 
 def one(i):
     src = '%s/pending/%s' % (V, i)
